@@ -53,6 +53,29 @@ def view_hook(builder, fr, out, node, stmt, sites):
             isbase = True
         if b0 is not None and b0.get("k") == "mem" and astx.is_this(b0.get("b")) and b0.get("dk") == "field" and b0["n"] == "_begin":
             isbase = True
+        if not isbase and b0 is not None and b0.get("k") == "ref" and b0.get("d") == "local":
+            # a local pointer that was itself formed from data() / begin(): `first + n` with `first = data() + pos`
+            try:
+                pt = P.simplify(builder.term(node, fr))
+            except Exception:
+                pt = None
+            def _offset(t):
+                if not isinstance(t, tuple):
+                    return t
+                if t[0] == "p" and len(t) > 2:
+                    return t[1]
+                if t[0] in ("c", "v", "unk"):
+                    return t
+                return tuple([t[0]] + [_offset(x) if isinstance(x, tuple) else x for x in t[1:]])
+            if pt is not None and isinstance(pt, tuple) and P.pos_object(pt) == "this":
+                ot = P.simplify(_offset(pt))
+                t = ("cmp", "<=", ot, T.size_of("this", fr.ctx))
+                info = builder.info(fr, stmt, what="pointer formed at %s + %s" % (astx.show(b0, 20), astx.show(node["r"], 30)), buffer="view",
+                                    access="form", index=T.show(ot), bound="size() (one past the end)")
+                info["site_id"] = "%s:%s" % (" > ".join(info.get("callpath") or [info["func"]]), info["what"])
+                sites.append(B.Site(info, t))
+                out.append(("oblige", t, dict(info, site=len(sites) - 1)))
+            return
         if not isbase:
             return
         ot = P.simplify(builder.term(node["r"], fr))
@@ -269,6 +292,10 @@ def exit_rule(chk, db, floor=6):
             if f.get("body") is not None and f["params"] and "basic_string_view" in f["params"][0]["ty"]:
                 pn = f["params"][1]["n"] if len(f["params"]) > 1 else "pos"
                 n += exits.check_function(chk, db, f, fam, pn, "size(%s)" % f["params"][0]["n"], "size(this)")
+            elif f.get("body") is not None and len(f["params"]) == 2 and f["params"][0]["ty"].replace("const ", "").strip() in ("Char", "CharT", "value_type"):
+                # the single-character overloads that do their own scan: a needle of length 1
+                if not (len(f["body"].get("s") or []) == 1 and f["body"]["s"][0].get("k") == "return"):
+                    n += exits.check_function(chk, db, f, fam, f["params"][1]["n"], None, "size(this)")
     for fam in ("find", "rfind"):
         for f in db.by_q.get("etl::strings::" + fam, []):
             if f.get("body") is not None and len(f["params"]) == 3 and "basic_string_view" in f["params"][1]["ty"]:
